@@ -871,7 +871,17 @@ func genesisRunCase(id string, in hInput) []Case {
 	obs.Sizes["dao_holders"] = len(c.App.DaoKeeper.GetAccountsBalances(ctx1))
 	obs.Sizes["blocks"] = len(in.Blocks)
 
-	if coq, err := genesisCoq(c.App, ctx1, gs1, gs2, height, c.Time); err == nil {
+	// the Coq evaluation of a state with 100+ token pairs takes close to a minute: generated bulk
+	// histories are checked by the oracle only; the corpus witness of that size is also model-evaluated
+	bulk := false
+	for _, b := range in.Blocks {
+		for _, o := range b.Ops {
+			bulk = bulk || o.Op == "manycoins"
+		}
+	}
+	if bulk && !strings.HasPrefix(id, "replay") {
+		main.Tags = append(main.Tags, "bulk:oracle-only")
+	} else if coq, err := genesisCoq(c.App, ctx1, gs1, gs2, height, c.Time); err == nil {
 		main.Coq, main.CoqList = coq, "cases"
 	} else {
 		obs.Errs = append(obs.Errs, "coq rendering: "+err.Error())
@@ -1029,7 +1039,7 @@ func genHistory(r *Rng, nBlocks, opsPerBlock int) hInput {
 				}
 			case k < 89:
 				op = hOp{Op: "toggle", K: uint64(r.Intn(nCoins + nLiquid + 1))}
-				if !bulkDone && r.Chance(10) {
+				if !bulkDone && r.Chance(25) {
 					bulkDone = true
 					op = hOp{Op: "manycoins", A: a, K: uint64(96 + r.Intn(12))} // around the page size of 100
 				}
